@@ -384,6 +384,41 @@ func (c joinCtx) decide(b *ssa.BasicBlock) int {
 			if k {
 				val = 1
 			}
+		} else if p, isPhi := cond.(*ssa.Phi); isPhi {
+			// the incoming value is the very condition the predecessor
+			// branched on: its outcome on that edge is known
+			for _, e := range c {
+				if e.j != p.Block() || e.pi >= len(e.j.Preds) {
+					continue
+				}
+				pred := e.j.Preds[e.pi]
+				if len(pred.Instrs) == 0 || len(pred.Succs) != 2 || pred.Succs[0] == pred.Succs[1] {
+					continue
+				}
+				pi, isIf := pred.Instrs[len(pred.Instrs)-1].(*ssa.If)
+				if !isIf {
+					continue
+				}
+				pc, pneg := pi.Cond, false
+				for {
+					u, isU := pc.(*ssa.UnOp)
+					if !isU || u.Op != token.NOT {
+						break
+					}
+					pneg, pc = !pneg, u.X
+				}
+				if pc != v {
+					continue
+				}
+				taken := 1 // condition true on Succs[0]
+				if pred.Succs[1] == e.j {
+					taken = 0
+				}
+				if pneg {
+					taken = 1 - taken
+				}
+				val = taken
+			}
 		}
 	} else if bo, ok := cond.(*ssa.BinOp); ok && (bo.Op == token.EQL || bo.Op == token.NEQ) {
 		for _, pr := range [][2]ssa.Value{{bo.X, bo.Y}, {bo.Y, bo.X}} {
